@@ -13,7 +13,11 @@ import (
 // hand-written leftmost-first matcher. Any other pattern is unsupported.
 // ---------------------------------------------------------------------------
 
-const queryParamsPattern = `\$(\d+)|\?`
+type reCompiled struct {
+	pat  string
+	root *reNode
+	ncap int
+}
 
 func modelRegexpCompile(e *Exec, c *frame, fn *ssa.Function, a []Value) Value {
 	pat, ok := e.concreteString(a[0].(Slice))
@@ -24,69 +28,53 @@ func modelRegexpCompile(e *Exec, c *frame, fn *ssa.Function, a []Value) Value {
 	p := new(Value)
 	*p = zero(t)
 	if e.regexps == nil {
-		e.regexps = map[*Value]string{}
+		e.regexps = map[*Value]*reCompiled{}
 	}
-	e.regexps[p] = pat
+	rc := &reCompiled{pat: pat}
+	root, ncap, err := parseRegexp(pat)
+	if err == nil {
+		rc.root, rc.ncap = root, ncap
+	}
+	e.regexps[p] = rc
 	return p
 }
 
+// FindAllStringSubmatch through the engine's own leftmost-first matcher
+// (regex.go); substrings alias the subject like the real package's do.
 func modelFindAllStringSubmatch(e *Exec, c *frame, fn *ssa.Function, a []Value) Value {
-	re := a[0].(*Value)
-	if e.regexps[re] != queryParamsPattern {
-		e.unsupported("regexp model covers only %q, got %q", queryParamsPattern, e.regexps[re])
+	rc := e.regexps[a[0].(*Value)]
+	if rc == nil || rc.root == nil {
+		pat := "?"
+		if rc != nil {
+			pat = rc.pat
+		}
+		e.unsupported("regexp model cannot handle the pattern %q", pat)
 	}
 	s := a[1].(Slice)
 	limit := a[2].(sym.Sc)
 	if !limit.K || limit.Signed() >= 0 {
 		e.unsupported("FindAllStringSubmatch with n >= 0")
 	}
-	n := e.ConcInt(s.Len)
-	base := e.o(s)
-	at := func(i int) sym.Sc { return s.St.peek(base + i).(sym.Sc) }
-	isDigit := func(b sym.Sc) sym.Sc {
-		return sym.And(sym.Ule(sym.Const(8, '0'), b), sym.Ule(b, sym.Const(8, '9')))
-	}
-	strT := types.Typ[types.String]
-	sliceOfStr := types.NewSlice(strT)
-	sub := func(lo, hi int) Slice {
-		if lo == hi {
-			return Slice{Len: i64zero, Cap: i64zero}
-		}
-		return Slice{St: s.St, Off: i64(base + lo), Len: i64(hi - lo), Cap: i64(hi - lo)}
-	}
-	var matches []Value
-	for i := 0; i < n; {
-		b := at(i)
-		if e.Branch(sym.Eq(b, sym.Const(8, '$'))) {
-			j := i + 1
-			for j < n && e.Branch(isDigit(at(j))) {
-				j++
-			}
-			if j > i+1 {
-				st := e.newStore(strT, i64(2))
-				*st.cell(0) = sub(i, j)
-				*st.cell(1) = sub(i+1, j)
-				matches = append(matches, Slice{St: st, Len: st.N, Cap: st.N})
-				i = j
-				continue
-			}
-			i++
-			continue
-		}
-		if e.Branch(sym.Eq(b, sym.Const(8, '?'))) {
-			st := e.newStore(strT, i64(2))
-			*st.cell(0) = sub(i, i+1)
-			*st.cell(1) = Slice{Len: i64zero, Cap: i64zero}
-			matches = append(matches, Slice{St: st, Len: st.N, Cap: st.N})
-		}
-		i++
-	}
-	if len(matches) == 0 {
+	found := e.reFindAll(rc.root, rc.ncap, s)
+	if len(found) == 0 {
 		return Slice{Len: i64zero, Cap: i64zero}
 	}
-	out := e.newStore(sliceOfStr, i64(len(matches)))
-	for i, m := range matches {
-		*out.cell(i) = m
+	base := e.o(s)
+	strT := types.Typ[types.String]
+	sliceOfStr := types.NewSlice(strT)
+	sub := func(r [2]int) Slice {
+		if r[0] < 0 || r[0] == r[1] {
+			return Slice{Len: i64zero, Cap: i64zero}
+		}
+		return Slice{St: s.St, Off: i64(base + r[0]), Len: i64(r[1] - r[0]), Cap: i64(r[1] - r[0])}
+	}
+	out := e.newStore(sliceOfStr, i64(len(found)))
+	for i, m := range found {
+		st := e.newStore(strT, i64(len(m)))
+		for g := range m {
+			*st.cell(g) = sub(m[g])
+		}
+		*out.cell(i) = Slice{St: st, Len: st.N, Cap: st.N}
 	}
 	return Slice{St: out, Len: out.N, Cap: out.N}
 }
